@@ -71,6 +71,10 @@ pub fn pick_addr(plan: &Plan, rng: &mut Rng, peer: usize, v6: bool, offscope: bo
         dst: handled,
         note: "own-mac",
     };
+    if rng.chance(1, 40) {
+        // a frame that claims to come from the responder's own MAC (spoofed or looped back)
+        a.smac = plan.cfg.mac;
+    }
     if !offscope {
         match rng.below(20) {
             0 => {
@@ -866,6 +870,33 @@ impl Scanner {
             a3.dst = d;
             a3.dmac = plan.cfg.mac;
             push(rng, &a3, sport, dport);
+        }
+        // a neighbouring source: one address bit flipped
+        {
+            let mut a4 = base.clone();
+            a4.src = match base.src {
+                IpAddr::V4(x) => IpAddr::V4(Ipv4Addr::from(u32::from(x) ^ (1u32 << rng.below(32)))),
+                IpAddr::V6(x) => IpAddr::V6(Ipv6Addr::from(u128::from(x) ^ (1u128 << rng.below(128)))),
+            };
+            push(rng, &a4, sport, dport);
+        }
+        // special-purpose IPv6 forms embedding the same IPv4 address (IPv4-mapped ::ffff:a.b.c.d,
+        // IPv4-compatible ::a.b.c.d): distinct addresses, distinct flows. Only when every
+        // destination is handled (no self-IP list) can the destination take such forms too.
+        if v6 && plan.cfg.self_ips.is_none() {
+            let b = rng.bytes(8);
+            let mk = |hi: u16, o: &[u8]| Ipv6Addr::new(0, 0, 0, 0, 0, hi, ((o[0] as u16) << 8) | o[1] as u16, ((o[2] as u16) << 8) | o[3] as u16);
+            let mut m = base.clone();
+            m.src = IpAddr::V6(mk(0xffff, &b[0..4]));
+            m.dst = IpAddr::V6(mk(0xffff, &b[4..8]));
+            m.dmac = plan.cfg.mac;
+            push(rng, &m, sport, dport);
+            let mut m2 = m.clone();
+            m2.src = IpAddr::V6(mk(0, &b[0..4]));
+            push(rng, &m2, sport, dport);
+            let mut m3 = m.clone();
+            m3.dst = IpAddr::V6(mk(0, &b[4..8]));
+            push(rng, &m3, sport, dport);
         }
         // sport/dport swapped: differs in two components, must not be mistaken for a pair
         push(rng, &base, dport, sport);
